@@ -54,7 +54,12 @@ def make_scenarios(ctx, count):
         # a session that is not complete keeps the enumeration engine in its pausing state
         frame(G.f_discover(rng, net, m=m, tos=0, ack=False, nstations=rng.choice([1, 2]), gen=1))
         load = rng.choice(["light", "medium", "heavy", "mixed"])
-        for blk in range(rng.randint(15, 60)):
+        # one enumeration that goes on for a minute or two (a large segment; the mapper keeps repeating its Discover): several
+        # hundred blocks without the engine ever returning to idle
+        long_run = i % 10 == 9
+        if long_run:
+            load = rng.choice(["medium", "heavy", "mixed"])
+        for blk in range(rng.randint(210, 430) if long_run else rng.randint(15, 60)):
             k = {"light": rng.choice([0, 0, 1, 2]), "medium": rng.randint(0, 12), "heavy": rng.randint(8, 40),
                  "mixed": rng.choice([0, 1, 3, 9, 10, 11, 15, 30])}[load]
             # Hellos of other stations spread over the block, our own ticks (100 ms, 50 ms, 10 ms or late) in between
@@ -74,6 +79,8 @@ def make_scenarios(ctx, count):
             for _ in range(left):
                 frame(G.f_hello(rng, net))
             r = rng.random()
+            if long_run and r >= 0.08:
+                r = 0.5 if r < 0.9 else 0.17
             if r < 0.08:
                 frame(G.f_discover(rng, net, m=m, tos=0, ack=False, nstations=2, gen=1))     # the mapper repeats its Discover
             elif r < 0.16:
@@ -88,7 +95,7 @@ def make_scenarios(ctx, count):
                 frame(G.f_discover(rng, net, m=m, tos=0, ack=False, nstations=1, gen=rng.choice([1, 3])))
             elif r < 0.2:
                 frame(G.f_probe(rng, net))
-        s.meta = dict(ops=ops, now0=now0, timed=timed, crowd=crowd)
+        s.meta = dict(ops=ops, now0=now0, timed=timed, crowd=crowd, long_run=long_run)
         scns.append(s)
     return scns
 
@@ -237,6 +244,8 @@ def monitor(scn, sobj, rep, sf, ck):
                     if sobj.meta.get("crowd"):
                         seen.add("the-same-beside-eight-or-more-complete-sessions")
             prev = cur
+    if sobj.meta.get("long_run") and nontriv_blocks >= 150:
+        seen.add("one-enumeration-of-more-than-200-blocks")
     rep.evaluations += blocks
     rep.count("history_block_ends", blocks)
     rep.count("history_block_ends_with_formula", nontriv_blocks)
@@ -260,6 +269,7 @@ def run(ctx):
     c = rep.counters
     rep.need("history_block_ends", c.get("history_block_ends", 0), 2000)
     rep.need("history_block_ends_with_formula", c.get("history_block_ends_with_formula", 0), 500)
+    rep.need("one-enumeration-of-more-than-200-blocks", c.get("reach:one-enumeration-of-more-than-200-blocks", 0), 10)
     for name in ("tick-after-a-block-with-hellos-while-an-incomplete-session-is-live", "the-same-beside-eight-or-more-complete-sessions"):
         rep.need(name, c.get("reach:" + name, 0), 20)
     for name in ("wait>pausing", "formula-applied", "saturated", "no-update:nothing-heard", "own-hello-inside-a-block-with-hellos-heard"):
